@@ -82,6 +82,25 @@ Theorem C07_old_session_encoders_do_not_take_new_counters :
         (join_prog E D cfg jf jrx appnonce newaddr :: map (fun u => uplink_prog E D (fst (fst (fst u))) (snd (fst (fst u))) (snd (fst u)) (snd u)) ups) acc)) = Some r' ->
       d_nwkskey r' = knew -> d_fdn r' = 0%N.
 Proof. exact stragglers_leave_the_new_downlink_counter_alone. Qed.
+(* ... and the frames of the session the device is leaving: one join handler and ANY number of uplink handlers (with their
+   scheduler and encoder steps) of frames that do not verify under the key the join derives, from a row in another session
+   with a data-typed buffer entry, while the old session has counters left for them - EVERY schedule, cut anywhere: the data
+   frames that leave (handed over with the one-second delay; the join-accept goes with five, C17) carry pairwise different
+   counters, each between the stored counter at the start and that plus the number of uplink handlers. Before the join
+   stores the new keys the encoders reserve counters with the session-bound fetch-and-increment; afterwards no reservation
+   finds the row, and an encoder that holds a counter still sends its one frame with it. With the theorem above (the new
+   session's counters stay zero): the pair (session key, downlink counter) is unique per frame across the re-join. *)
+From Lospan Require Import Proof.SessionDataProof.
+Theorem C07_counters_unique_across_a_rejoin :
+  forall (E D : list N -> list N -> list N) apps cfg jf jrx appnonce newaddr (ups : list (frame * rxpacket * nat * N)) sched fuel st r,
+    let knew := nwkskey_from_nonces E (d_appkey r) appnonce (cfg_netid cfg) (jr_devnonce (jr jf)) in
+    ds_row st = Some r -> fb_down st -> d_nwkskey r <> knew -> (d_fdn r < 65536)%N -> (d_fdn r + N.of_nat (length ups) <= 65536)%N ->
+    Forall (fun u => (fcnt (fst (fst (fst u))) < 65535)%N /\
+                     forall dev, d_nwkskey dev = knew -> mic_ok E (fst (fst (fst u))) (rx_raw (snd (fst (fst u)))) dev = false) ups ->
+    let outs := snd (interleaveN apps sched fuel st
+        (join_prog E D cfg jf jrx appnonce newaddr :: map (fun u => uplink_prog E D (fst (fst (fst u))) (snd (fst (fst u))) (snd (fst u)) (snd u)) ups) []) in
+    NoDup (dcounters outs) /\ Forall (fun x => (d_fdn r <= x < d_fdn r + N.of_nat (length ups))%N) (dcounters outs).
+Proof. exact rejoin_counters_unique. Qed.
 
 
 Print Assumptions C07_step.
@@ -91,3 +110,4 @@ Print Assumptions C07_two_handlers_counters_unique.
 Print Assumptions C07_raw_frame_carries_its_counter.
 Print Assumptions C07_histories_of_concurrent_uplinks.
 Print Assumptions C07_old_session_encoders_do_not_take_new_counters.
+Print Assumptions C07_counters_unique_across_a_rejoin.
